@@ -453,6 +453,32 @@ def clause5_payload(ctx, P):
         if lit in ("params", "value") and any(Q.is_call_to(l, "cJSON_Duplicate") for l in lv):
             attach = True
     ctx.ob("C03.5 R-PAIR", crm, "payload:attached", attach, "the duplicate of the caller's payload is not what gets attached to the routed message")
+    # '{}' stands in for the payload only when the caller sent NONE: every path to the substitute established value == NULL and
+    # nothing else about the value (a JSON null is a value and is relayed as such)
+    vprm = ("param", 3, crm.params[3]["name"])
+    subst = []
+    for a in crm.calls(("cJSON_AddItemToObject", "add_item_to_object")):
+        if Q.arg_literal(P, a, 1) not in ("params", "value"):
+            continue
+        lv = Q.leaves(P, crm, a.a[2], through_loads=False)[0]
+        if any(Q.is_call_to(l, "cJSON_Duplicate") for l in lv):
+            for l in lv:
+                if l[0] == "call" and not Q.is_call_to(l, "cJSON_Duplicate") and l[3] in crm.insts and crm.insts[l[3]] not in subst:
+                    subst.append(crm.insts[l[3]])
+    bads = None
+    for c in subst:
+        for v in Q.path_views(ctx, P, crm):
+            if c.block not in v.blocks:
+                continue
+            isnull = v.has_atom(lambda a, p: a[0] == "cmp" and a[2] == vprm and a[3] == ("null",) and Q._poleq(a, p))
+            other = v.has_atom(lambda a, p: a[0] in ("cmp", "truth") and Q.mentions(a[1] if a[0] == "truth" else a[2], lambda x: x == vprm) and
+                               not (a[0] == "cmp" and a[2] == vprm and a[3] == ("null",)))
+            if not isnull or other:
+                bads = (v, c)
+    ctx.ob("C03.5 R-GATE", crm, "payload:substitute-only-when-absent", bads is None and len(subst) >= 1,
+           "create_routed_message() replaces the caller's value/args by an empty container at %s on a path that did not establish "
+           "'no value given' (or looked at the value's content): a legal value such as null reaches the owner changed" %
+           (bads[1].loc if bads else "?"), witness=bads[0].witness() if bads else None)
     h = P.fn("router.c:handle_routing_response")
     dups = h.calls("cJSON_Duplicate")
     ok = len(dups) == 1 and P.term(h, dups[0].a[0])[0] == "param" and P.term(h, dups[0].a[0])[1] == 1 and P.const_int(dups[0].a[1]) == 1
@@ -487,6 +513,19 @@ def clause6_unique(ctx, P):
             bad = v
     ctx.ob("C03.6 R-ORDER", f, "counter", bad is None, "a path of the id generator does not embed and increment the global counter",
            witness=bad.witness() if bad else None)
+    # the counter is as wide as an int at least: a narrower one wraps while old requests are still in flight (65536 requests are
+    # routed in seconds, a request may wait for its answer for as long as its timeout allows)
+    widths = set()
+    for i in f.all_insts():
+        if i.op == "store":
+            dt = P.term(f, i.a[1])
+            if dt[0] == "global" and P.term(f, i.a[0]) == ("op", "add", (("load", dt), ("const", 1))):
+                ty = P.globals.get(dt[1], {}).get("ty", "")
+                widths.add(int(ty[1:]) if ty.startswith("i") and ty[1:].isdigit() else 0)
+    ctx.ob("C03.6 R-BOUND", f, "counter-is-int-wide", bool(widths) and min(widths) >= 32,
+           "the counter that makes routed request ids unique is %s bits wide: it wraps after %s requests and a request still in "
+           "flight shares its routed id with a new one of the same caller (the newer entry replaces the older in the owner's table)" %
+           (sorted(widths), 2 ** min(widths) if widths and min(widths) else "?"))
     ar = P.fn("router.c:alloc_routing_request")
     ctx.ob("C03.6 R-WHO", ar, "fill:once", len(ar.calls("fill_routed_request_id")) == 1 and len(P.callers_of(f)) == 1,
            "generated id must be filled exactly once per routing entry")
@@ -542,3 +581,6 @@ def run(ctx):
         clause4_route(ctx, P)
         clause5_payload(ctx, P)
         clause6_unique(ctx, P)
+        # how an owner's answer is recognised and which member is relayed (shared with C02.3)
+        from .c02 import clause3_responses
+        clause3_responses(ctx, P)
